@@ -217,6 +217,12 @@ class CompilerState(CoderState):
     def add_bitmap_link(self):
         self.add_statement(StateMethodCall(get_func_name()))
 
+    def cancel_new_refvals(self):
+        # The cancellation must also happen at runtime: marker operators consult
+        # the new reference values of the running state.
+        super(CompilerState, self).cancel_new_refvals()
+        self.add_statement(StateMethodCall(get_func_name()))
+
 
 class TemplateCompiler(Coder):
     """
